@@ -208,6 +208,66 @@ impl Property for C05 {
         add_neutral_xargs_opts(rng, &mut opts);
         // no command at all: the built-in echo prints what a command would have received
         let echo_mode = rng.chance(1, 15) && !opts.iter().any(|o| matches!(o, Opt::Verbose));
+        let mut input = input;
+        let mut plans = plans;
+        let mut extra = xargs::XExtra::default();
+        let mut note: String = if long { "long".into() } else { "short".into() };
+        match rng.weighted(&[940, 30, 20, 10]) {
+            1 => {
+                // the stream is a real file that xargs opens itself (no seam, no plans)
+                if !opts.iter().any(|o| matches!(o, Opt::ArgFile)) {
+                    opts.push(Opt::ArgFile);
+                }
+                extra.real_arg_file = Some(xargs::ArgFileKind::Regular);
+                plans = vec![vec![]];
+                note = "real -a file".into();
+            }
+            2 => {
+                // ... a file of the proc file system: regular by its metadata, size 0, content
+                // only known by reading it (the thread's name and a newline)
+                if !opts.iter().any(|o| matches!(o, Opt::ArgFile)) {
+                    opts.push(Opt::ArgFile);
+                }
+                extra.real_arg_file = Some(xargs::ArgFileKind::ProcComm);
+                let mut name: Vec<u8> = input.iter().copied().map(|b| if b == 0 || b == b'\n' { b' ' } else { b }).take(15).collect();
+                if name.is_empty() {
+                    name = b"a 'b c' d".to_vec();
+                }
+                name.push(b'\n');
+                input = name;
+                plans = vec![vec![]];
+                note = "real -a /proc/thread-self/comm".into();
+            }
+            3 => {
+                // a very long run of separators between two arguments, on a small stack
+                let sepb = match cfg.delim {
+                    Some(d) => d,
+                    None => *rng.pick(&[b' ', b'\n', b'\t']),
+                };
+                let a: &[u8] = if sepb == b'a' { b"x" } else { b"a" };
+                let b: &[u8] = if sepb == b'b' { b"y" } else { b"b" };
+                let n = rng.urange(20_000, 300_000);
+                let mut v = Vec::with_capacity(n + 4);
+                if rng.chance(1, 2) {
+                    v.extend_from_slice(a);
+                }
+                v.extend(std::iter::repeat(sepb).take(n));
+                v.extend_from_slice(b);
+                if rng.chance(1, 2) {
+                    v.push(sepb);
+                }
+                input = v;
+                plans = vec![vec![], vec![ReadOp::Data(1), ReadOp::Data(4095), ReadOp::Data(4097), ReadOp::Intr, ReadOp::Data(8192)]];
+                extra.stack_kib = Some(*rng.pick(&[512u32, 1024, 2048]));
+                note = "separator run".into();
+            }
+            _ => {
+                if long && rng.chance(1, 8) {
+                    extra.stack_kib = Some(1024);
+                }
+            }
+        }
+        extra.ambient.env = crate::ambient::Ambient::gen_env(rng, 8);
         Sc {
             base: XargsScenario {
                 opts,
@@ -218,10 +278,10 @@ impl Property for C05 {
                 rlimit_stack: None,
                 env: None,
                 real: None,
-                note: if long { "long".into() } else { "short".into() },
+                note,
                 decoy_in_cwd: false,
                 echo_mode,
-                extra: Default::default(),
+                extra,
             },
             plans,
         }
@@ -252,6 +312,20 @@ impl Property for C05 {
         let input = &sc.base.input.0;
         let mut spec = tokenize(&cfg, input);
         let exp = expect(&sc.base, &cfg, &spec);
+        match sc.base.extra.real_arg_file {
+            Some(xargs::ArgFileKind::Regular) => rep.probe("argument_file_opened_and_read_for_real"),
+            Some(xargs::ArgFileKind::ProcComm) => rep.probe("argument_file_in_proc_with_size_0"),
+            None => {}
+        }
+        if sc.base.extra.stack_kib.is_some() {
+            rep.probe("small_stack");
+        }
+        if sc.base.note == "separator run" {
+            rep.probe("tens_of_thousands_of_consecutive_separators");
+        }
+        if !sc.base.extra.ambient.env.is_empty() {
+            rep.probe("environment_variables_nobody_should_listen_to");
+        }
         let has_null = sc.base.opts.iter().any(|o| matches!(o, Opt::Null));
         let has_delim = sc.base.opts.iter().any(|o| matches!(o, Opt::Delim(_)));
         if has_null && has_delim {
